@@ -18,8 +18,26 @@
 //	  secret||pubkey, that username) and answered 200 with a profile,
 //	  and the client could only read the LoginSuccess by decrypting with that secret ).
 //
+// Reference automaton: expect-ls -> [wait-plugin ->] expect-er -> done, anything illegal ->
+// dead. wait-plugin is entered when the PreLogin subscriber asked the client 1..2 questions
+// over login plugin messages (>= 1.13): the login completes only after the client answered
+// all of them, so the encryption request (or, forced offline, the login success) is awaited
+// only after the last answer. A second login start, an encryption response or an unknown
+// packet in wait-plugin is as illegal as in any other sub-state. The statement says nothing
+// about WHEN the encryption request may be sent relative to the answers, so a request seen
+// while answers are outstanding is only counted, never judged.
+//
+// 1.19-1.19.2 (759/760) clients log in without a profile key (forceKeyAuthentication=false).
+// Their encryption response has a second wire form, salt + signature. A key-less client has
+// nothing that could make a signature valid: salt + arbitrary/empty signature bytes never
+// permits admission. Salt + the RSA-encrypted exact token in the signature field literally
+// "returned the exact verify token": judged like the unsalted valid response (admit or close).
+//
 // Violation: admitted && !allowed. Also: any out-of-order / duplicate / unknown login packet
 // must end in a closed connection (and, when it precedes a complete exchange, no admission).
+// Once the reference has refused a connection the fake client keeps playing its script for as
+// long as the proxy keeps the connection open (it waits briefly for the token / question its
+// next packet needs), so that a proxy that wrongly carried on is driven to the admission.
 package c08
 
 import (
@@ -287,6 +305,9 @@ func TestC08(t *testing.T) {
 				sc.Ops = mk("ls", "answer-one", "answer-one", erAny())
 			case 7:
 				sc.Ops = mk("ls", "ls", "er-valid")
+				if rng.Intn(3) == 0 {
+					sc.Ops = mk("ls", "ls") // the duplicate alone: judged on the close only
+				}
 			default:
 				random()
 			}
@@ -613,7 +634,7 @@ func TestC08(t *testing.T) {
 					}
 					es, _ := rsa.EncryptPKCS1v15(rand.Reader, pub, sec)
 					resp := &packet.EncryptionResponse{SharedSecret: es, VerifyToken: sig, Salt: &salt}
-					if wasExpectER {
+					if req != nil {
 						_ = c.SendThenEncrypt(resp, sec)
 						encEnabled = true
 					} else {
@@ -624,8 +645,11 @@ func TestC08(t *testing.T) {
 						r.Count("salted_responses_sent_as_the_awaited_response", 1)
 					}
 				default:
-					_ = c.RespondEncryptionWithKey(pub, sec, token, enable && wasExpectER)
-					if enable && wasExpectER && len(sec) == 16 {
+					// a client that holds a token switches its cipher on with a response it
+					// believes in, also where the reference has already refused the connection
+					// (it can then read a login success a broken proxy might send)
+					_ = c.RespondEncryptionWithKey(pub, sec, token, enable && req != nil)
+					if enable && req != nil && len(sec) == 16 {
 						encEnabled = true
 					}
 				}
@@ -666,8 +690,18 @@ func TestC08(t *testing.T) {
 		}
 		closedInTime := true
 		if mustClose {
-			if !c.WaitEOF(10 * time.Second) {
-				closedInTime = false
+			// until the proxy closed - or admitted the client, which decides the session the
+			// other way without any further waiting
+			closedInTime = false
+			for dl := time.Now().Add(10 * time.Second); time.Now().Before(dl); {
+				if c.EOF() {
+					closedInTime = true
+					break
+				}
+				if c.GotLoginSuccess() || rec.has("postlogin:"+sc.Name) || rec.has("postlogin:"+otherNm) {
+					break
+				}
+				time.Sleep(100 * time.Microsecond)
 			}
 		} else if allowed {
 			st2 := st
@@ -943,6 +977,16 @@ type evRec struct {
 
 func (e *evRec) add(s string) { e.mu.Lock(); e.l = append(e.l, s); e.mu.Unlock() }
 func (e *evRec) reset()       { e.mu.Lock(); e.l = nil; e.mu.Unlock() }
+func (e *evRec) has(s string) bool {
+	e.mu.Lock()
+	defer e.mu.Unlock()
+	for _, x := range e.l {
+		if x == s {
+			return true
+		}
+	}
+	return false
+}
 func (e *evRec) list() []string {
 	e.mu.Lock()
 	defer e.mu.Unlock()
